@@ -1,8 +1,105 @@
 import DepsDev.Drive.Loop
-open DepsDev
+import DepsDev.Model.Pypi.Dep508
+import DepsDev.Model.Pypi.Marker
+open DepsDev DepsDev.Pypi
 
-/-- Stub: replaced by the property's builder. -/
-def handleC16 : List String → String
+/-! Driver of property C16: answers the ops of harness/cmd/c16 with the Lean model.
+The `ver=` / `leaf=` fields of a marker op are the values of the model's `Semver`
+parameters on that marker's operands (see Model/Pypi/Marker.lean). -/
+
+namespace C16Driver
+
+def stripPrefix? (p s : String) : Option String :=
+  if s.startsWith p then some (String.ofList (s.toList.drop p.length)) else none
+
+def opOfName (n : String) : Option Nat :=
+  let rec go (i : Nat) : List String → Option Nat
+    | [] => none
+    | x :: xs => if x == n then some i else go (i + 1) xs
+  go 0 Gen.C16PypiEnv.opNames
+
+structure Facts where
+  ver : List (Bytes × Bool) := []
+  leaf : List (Bytes × Nat × Bytes × Outcome Bool) := []
+
+def parseVer (s : String) : Option (Bytes × Bool) :=
+  match s.splitOn ":" with
+  | [h, b] => do
+    let v ← Bytes.ofHex h
+    if b == "1" then some (v, true) else if b == "0" then some (v, false) else none
+  | _ => none
+
+def parseLeaf (s : String) : Option (Bytes × Nat × Bytes × Outcome Bool) :=
+  match s.splitOn ":" with
+  | [hl, on, hr, res] => do
+    let l ← Bytes.ofHex hl
+    let o ← opOfName on
+    let r ← Bytes.ofHex hr
+    let v : Outcome Bool ← match res with
+      | "1" => some (.ok true)
+      | "0" => some (.ok false)
+      | "e" => some .err
+      | "p" => some (.panic "semver")
+      | _ => none
+    some (l, o, r, v)
+  | _ => none
+
+/-- Reads the fields after `extras=`; unknown fields (`ast=`) are ignored. -/
+def parseFacts : List String → Option Facts
+  | [] => some {}
+  | f :: rest => do
+    let fs ← parseFacts rest
+    match stripPrefix? "ver=" f with
+    | some x => let v ← parseVer x; some { fs with ver := v :: fs.ver }
+    | none =>
+      match stripPrefix? "leaf=" f with
+      | some x => let l ← parseLeaf x; some { fs with leaf := l :: fs.leaf }
+      | none => if f.startsWith "ast=" then some fs else none
+
+def parseExtrasField (f : String) : Option (List Bytes) := do
+  let rest ← stripPrefix? "extras=" f
+  if rest == "" then some [] else (rest.splitOn ",").mapM Bytes.ofHex
+
+def Facts.semver (fs : Facts) : Semver where
+  isVersion v := match fs.ver.find? (·.1 == v) with
+    | some (_, b) => b
+    | none => false
+  cmpLeaf l o r := match fs.leaf.find? (fun x => x.1 == l && x.2.1 == o && x.2.2.1 == r) with
+    | some (_, _, _, v) => v
+    | none => .panic "missing-fact"
+
+def showBool (o : Outcome Bool) : String :=
+  match o with
+  | .ok true => "ok 1"
+  | .ok false => "ok 0"
+  | .err => "err"
+  | .panic "missing-fact" => "missing-fact"
+  | .panic _ => "panic"
+
+def handle : List String → String
+  | ["pname", h] =>
+    match Bytes.ofHex h with
+    | some b => "ok " ++ Bytes.toHex (canonPackageName b)
+    | none => "bad-op"
+  | "dep508" :: h :: rest =>
+    if !(rest.all (·.startsWith "ast=")) then "bad-op" else
+    match Bytes.ofHex h with
+    | none => "bad-op"
+    | some b =>
+      match parseDependency b with
+      | .ok d => s!"ok name={Bytes.toHex d.name} extras={Bytes.toHex d.extras} constraint={Bytes.toHex d.constraint} env={Bytes.toHex d.environment}"
+      | .err => "err"
+      | .panic _ => "panic"
+  | kind :: h :: ex :: rest =>
+    if kind != "marker" && kind != "resolve" then "bad-op" else
+    match Bytes.ofHex h, parseExtrasField ex, parseFacts rest with
+    | some raw, some extras, some fs =>
+      -- `marker`: the hook VerifEvalMarker; `resolve`: the filter of getDependencies on the
+      -- single guarded requirement (the graph around it is C08's model, not this one).
+      showBool (keepDependency fs.semver (some raw) extras)
+    | _, _, _ => "bad-op"
   | _ => "bad-op"
 
-def main : IO Unit := Drive.runDriver "C16" handleC16
+end C16Driver
+
+def main : IO Unit := Drive.runDriver "C16" C16Driver.handle
